@@ -192,8 +192,8 @@ class OptimizationAbstract(ABC, Generic[T]):
             return groups
 
         # calculate the group composed by the residual agents
-        residual = self._config.population_size % n_groups
-        if residual != 0:
+        residual = len(self._population) - n_groups * n_agents
+        if residual > 0:
             groups.append([agent.model_copy() for agent in self._population[-residual:]])
         return groups
 
